@@ -12,8 +12,8 @@ META = {
     'trusted': 'CrossHair + z3; symrt struct/CBytes models.',
     'bounds': {
         'quick': 'heartbeat (all channels), protocol header (all version triples), content body '
-                 '(lengths 1..6, all contents), content header (priority, delivery mode, one short '
-                 'string <= 1 code point, timestamp), 12 method classes covering every wire type with '
+                 '(lengths 1..6, all contents), content header (priority, delivery mode, a fixed short '
+                 'string, timestamp, headers), 12 method classes covering every wire type with '
                  'symbolic arguments (strings <= 1 code point, fixed in classes with several strings; table '
                  '{k: n}); every cut 0..len-1',
         'thorough': 'all 64 method classes, body lengths 1..16',
@@ -92,16 +92,16 @@ def partitions(tier, seed):
                           PRE, 120, family='cut_body', bound='all bodies of length %d, every cut' % n,
                           rep={'ch': 1, 'content': {'__bytes__': 'ce' * n}, 'k': n + 7}))
     parts.append(Part('cut_header',
-                      [('ch', 'int'), ('size', 'int'), ('prio', 'int'), ('dm', 'int'), ('ct', 'str'),
+                      [('ch', 'int'), ('size', 'int'), ('prio', 'int'), ('dm', 'int'),
                        ('ts', 'int'), ('k', 'int')],
                       ['0 <= ch <= 65535', '0 <= size < 2**64', '0 <= prio <= 255', '1 <= dm <= 2',
-                       'len(ct) <= 1', '0 <= ts < 2**32', '0 <= k <= 60'],
-                      'def body(ch, size, prio, dm, ct, ts, k):\n'
-                      '    p = commands.Basic.Properties(content_type=ct, priority=prio, delivery_mode=dm,\n'
+                       '0 <= ts < 2**32', '0 <= k <= 60'],
+                      'def body(ch, size, prio, dm, ts, k):\n'
+                      '    p = commands.Basic.Properties(content_type="a/b", priority=prio, delivery_mode=dm,\n'
                       '                                  timestamp=hx.dt(ts, 0, 0), headers=hx.table([("k", 1)]))\n'
                       '    return cut_ok(frame.marshal(header.ContentHeader(0, size, p), ch), k)\n',
                       PRE, 200, family='cut_header', bound='content header with 5 properties, every cut',
-                      rep={'ch': 1, 'size': 10, 'prio': 0, 'dm': 1, 'ct': 'a', 'ts': 1, 'k': 20}))
+                      rep={'ch': 1, 'size': 10, 'prio': 0, 'dm': 1, 'ts': 1, 'k': 20}))
     parts.append(Part('cut_header_empty', [('ch', 'int'), ('size', 'int'), ('k', 'int')],
                       ['0 <= ch <= 65535', '0 <= size < 2**64', '0 <= k <= 21'],
                       'def body(ch, size, k):\n'
